@@ -110,10 +110,15 @@ Rank(hj0) ==
     IN IF Len(rk) = 0 THEN hj
        ELSE IF rem = {} THEN
             IF Len(rk) > 1 /\ J[rk[2]].p = 1 THEN
+                \* (after "fix: a jump-off participant beaten at an earlier jump-off height was re-instated"): in a jump-off
+                \* only those who took part at the current height come back; the places are then worked out again, so
+                \* that the ones left behind (still eliminated) rank below those still in
                 LET tied == {b \in DOMAIN J : J[b].p = 1}
-                    back == {b \in tied : ~HasRetired(J[b])}
-                IN [hj EXCEPT !.j = TLCEval([b \in DOMAIN J |-> IF b \in back THEN Reinstate(J[b]) ELSE J[b]]),
-                              !.state = IF back # {} THEN "jumpoff" ELSE "drawn"]
+                    injo == hj.state = "jumpoff"
+                    back == {b \in tied : ~HasRetired(J[b]) /\ ~(injo /\ Len(J[b].card) < Len(hj.heights))}
+                    hj2 == [hj EXCEPT !.j = TLCEval([b \in DOMAIN J |-> IF b \in back THEN Reinstate(J[b]) ELSE J[b]]),
+                                      !.state = IF back # {} THEN "jumpoff" ELSE "drawn"]
+                IN IF injo THEN TLCEval(RankJ(hj2)) ELSE hj2
             ELSE IF hj.state = "jumpoff" /\ ~HasRetired(J[rk[1]]) THEN
                 [hj EXCEPT !.j[rk[1]] = Reinstate(@)]
             ELSE [hj EXCEPT !.state = "finished"]
@@ -389,11 +394,12 @@ PlacesFail(hj) ==
               ELSE {})
 
 (***************************************************************************)
-(* Known finding KF-HJ1 (see known_findings.json), as a predicate: a       *)
-(* jump-off participant who was beaten at an earlier jump-off height (out  *)
-(* of Active) is back in the competition: not eliminated any more, or has  *)
-(* a later mark on the card.  Everything after such a state is attributed  *)
-(* to the finding rather than reported as new.                             *)
+(* Former finding KF-HJ1 (repaired, see known_findings.json "fixed"), as a  *)
+(* predicate: a jump-off participant who was beaten at an earlier jump-off *)
+(* height (out of Active) is back in the competition: not eliminated any   *)
+(* more, or has a later mark on the card.  Kept as a monitor: should the   *)
+(* defect return, every clause failure after such a state carries the      *)
+(* signature KF-HJ1 - which no longer matches a listed finding.            *)
 (***************************************************************************)
 KF_BeatenReinstated(h) ==
     LET nr == NRegR(h) IN
